@@ -50,6 +50,8 @@ pub struct SEnv {
     pub attempts: Ghost<nat>,                     // send/try_send calls on the event queue
     pub errs: Ghost<Seq<RuntimeError>>,           // runtime errors accepted into the error channel
     pub err_attempts: Ghost<nat>,
+    pub nowait_sends: Ghost<nat>,                 // sends on the event queue that do not wait for room (try_send): such a send may refuse an event
+                                                  // merely because the queue is full
 }
 // async_priority_channel::Sender<Event, Priority>
 pub struct EvTx;
@@ -59,12 +61,14 @@ impl EvTx {
     pub fn send(&self, ev: Event, p: Priority, env: &mut SEnv) -> (r: Result<(), SendErr>)
         ensures r is Ok ==> final(env).sent@ == old(env).sent@.push((ev.tags@, p)), r is Err ==> final(env).sent == old(env).sent,
             final(env).attempts@ == old(env).attempts@ + 1, final(env).errs == old(env).errs, final(env).err_attempts == old(env).err_attempts,
+            final(env).nowait_sends == old(env).nowait_sends,
     { unimplemented!() }
     // try_send: Err iff full or closed (nothing queued)
     #[verifier::external_body]
     pub fn try_send(&self, ev: Event, p: Priority, env: &mut SEnv) -> (r: Result<(), TrySendErr>)
         ensures r is Ok ==> final(env).sent@ == old(env).sent@.push((ev.tags@, p)), r is Err ==> final(env).sent == old(env).sent,
             final(env).attempts@ == old(env).attempts@ + 1, final(env).errs == old(env).errs, final(env).err_attempts == old(env).err_attempts,
+            final(env).nowait_sends@ == old(env).nowait_sends@ + 1,
     { unimplemented!() }
 }
 // mpsc::Sender<RuntimeError>
@@ -73,12 +77,12 @@ impl ErrTx {
     #[verifier::external_body]
     pub fn send(&self, e: RuntimeError, env: &mut SEnv) -> (r: Result<(), ErrSendErr>)
         ensures r is Ok ==> final(env).errs@ == old(env).errs@.push(e), r is Err ==> final(env).errs == old(env).errs,
-            final(env).err_attempts@ == old(env).err_attempts@ + 1, final(env).sent == old(env).sent, final(env).attempts == old(env).attempts,
+            final(env).err_attempts@ == old(env).err_attempts@ + 1, final(env).sent == old(env).sent, final(env).attempts == old(env).attempts, final(env).nowait_sends == old(env).nowait_sends,
     { unimplemented!() }
     #[verifier::external_body]
     pub fn try_send(&self, e: RuntimeError, env: &mut SEnv) -> (r: Result<(), ErrSendErr>)
         ensures r is Ok ==> final(env).errs@ == old(env).errs@.push(e), r is Err ==> final(env).errs == old(env).errs,
-            final(env).err_attempts@ == old(env).err_attempts@ + 1, final(env).sent == old(env).sent, final(env).attempts == old(env).attempts,
+            final(env).err_attempts@ == old(env).err_attempts@ + 1, final(env).sent == old(env).sent, final(env).attempts == old(env).attempts, final(env).nowait_sends == old(env).nowait_sends,
     { unimplemented!() }
 }
 // notify::Event as delivered to the watcher callback
